@@ -275,16 +275,15 @@ theorem read_write_plain (b : Bool) (z : ZoneMap) (zo : Name) (rel gfix : Bool) 
   generalize writeOrder b z = w at *
   have htxt : zonePlainText w rtextOf = linesText (zoneRecLines absOf rtextOf w) := (linesText_zone absOf rtextOf w).symm
   rw [htxt]
-  unfold zoneFromText PState.read
+  rw [zoneFromText_def]
   simp only [bind, Except.bind]
   rw [readLoop_eq_interp]
   have hlen : (zoneRecLines absOf rtextOf w).length <
-      (PState.init (linesText (zoneRecLines absOf rtextOf w)) (some zo) rel gfix).tok.input.length + 2 := by
+      (linesText (zoneRecLines absOf rtextOf w)).length + 2 := by
     have := linesText_length (zoneRecLines absOf rtextOf w)
-    simp only [PState.init, TState.init]
     omega
   rw [parseTrace_lines (zoneRecLines absOf rtextOf w) (PState.init (linesText (zoneRecLines absOf rtextOf w)) (some zo) rel gfix)
-    zo _ hlen rfl rfl (by simp [PState.init, TState.init, after]) (by simpa [PState.init] using hgood)]
+    zo _ hlen rfl rfl (by simp [PState.init, TState.init, after]) rfl (by simpa [PState.init] using hgood)]
   rw [interp_traceOfLines, entries_zoneRecLines]
   have heff : (PState.init (linesText (zoneRecLines absOf rtextOf w)) (some zo) rel gfix).effOrigin =
       (if rel then some [] else some zo) := by
